@@ -323,6 +323,9 @@ func runCheck(id, tier string, seed int) int {
 				continue
 			}
 			for _, o := range j.sel {
+				if listedKnown(known, o.Name) {
+					continue // a listed known finding is expected to stay undischarged
+				}
 				if o.Kind != "cover" && o.Result != nil && o.Result.Status != "unsat" && o.Result.Status != "sat" && len(again) < 24 {
 					again = append(again, redo{j.res.exec, o})
 				}
@@ -367,6 +370,7 @@ func runCheck(id, tier string, seed int) int {
 	var funcsUnder []string
 	var noMeasure []string
 	knownSeen := map[string]bool{}
+	var deferred []string
 	clauseSeen := map[string]bool{}
 	var lines []string
 	perSolver := map[string]int{}
@@ -418,6 +422,12 @@ func runCheck(id, tier string, seed int) int {
 				kfCount++
 				knownSeen[kf.Obligation] = true
 				lines = append(lines, fmt.Sprintf("KNOWN-FINDING: property=%s %s [%s]", id, kf.What, o.Name))
+				continue
+			}
+			// a clause tagged for another property whose failure is that property's listed known finding is that
+			// property's business: it is reported (once) by that property's check, not as a violation of this one
+			if other := findKnownOther(known, id, o); other != nil {
+				deferred = append(deferred, other.Property+": "+o.Name)
 				continue
 			}
 			violations++
@@ -505,6 +515,7 @@ func runCheck(id, tier string, seed int) int {
 		"cache_hits":                cacheHits,
 		"cache_note":                "answers 'unsat' for byte-identical queries are reused for at most GOVC_CACHE_TTL seconds (default 3600) across the checks of different properties; every verification condition is still regenerated from /repo's working tree on every run; the thorough tier never uses the cache",
 		"stale_known_findings":      staleKnown,
+		"deferred_to_other_property": deferred,
 		"vacuity_guards":            map[string]any{"cover_checks": coverTotal, "proved_satisfiable": coverSat, "refuted": 0, "note": "a cover check asks the solvers whether the precondition / the function exit is reachable under all assumptions; 'unsat' would mean a contradictory contract and fails the check; with quantified assumptions the solvers usually answer 'unknown', which is tolerated"},
 		"explanation":               "each obligation is one SMT query generated from the SSA of /repo's current working tree and the //@ contracts; discharged = unsat",
 	}
@@ -546,6 +557,29 @@ func roundMap(m map[string]float64) map[string]float64 {
 		out[k] = round3(v)
 	}
 	return out
+}
+
+// findKnownOther: the failing obligation comes from a clause tagged with another property (and not with this one),
+// and that property lists exactly this obligation as a known finding.
+func findKnownOther(k *KnownFile, id string, o *Obligation) *KnownFinding {
+	if len(o.Tags) == 0 || containsStr(o.Tags, id) {
+		return nil
+	}
+	for i := range k.Known {
+		if k.Known[i].Property != id && k.Known[i].Obligation == o.Name && containsStr(o.Tags, k.Known[i].Property) {
+			return &k.Known[i]
+		}
+	}
+	return nil
+}
+
+func listedKnown(k *KnownFile, obl string) bool {
+	for i := range k.Known {
+		if k.Known[i].Obligation == obl {
+			return true
+		}
+	}
+	return false
 }
 
 func findKnown(k *KnownFile, id, obl string) *KnownFinding {
